@@ -226,7 +226,64 @@ def band_has_overlap(n, m, lo, hi):
     return n > 0 and m > 0 and hi >= -(n - 1) and lo <= m - 1
 
 
-def call_banded(ctx, P, band, local, max_number):
+def sentinel_underflow_class(P, local):
+    """Trigger class `banded_affine_sentinel_underflow`: semi-global, affine, and
+    |open-ext| + ext - min(0, min(matrix)) < 0 (the corrected INT32_MIN sentinel of
+    banded.pyx underflows when a gap is extended from the band border)."""
+    go, ge, affine = R.penalties(P.gp)
+    if local or not affine:
+        return False
+    h = max(0, -int(P.matrix.min()))
+    return abs(go - ge) + ge + h < 0
+
+
+def first_step_gap_class(P, lo, hi, local):
+    """Trigger class `banded_first_step_gap`: semi-global and some in-band pair of
+    positions (0, j) or (i, 0) scores below max(gap open, gap extension), so the best
+    banded DP path may open with a gap directly after the free terminal gaps (a
+    necessary condition for the lost-gap-column mechanism to change a score)."""
+    if local or not P.n or not P.m:
+        return False
+    go, ge, _ = R.penalties(P.gp)
+    limit = max(go, ge)
+    S = P.S
+    for j in range(P.m):
+        if lo <= j <= hi and S[0][j] < limit:
+            return True
+    for i in range(P.n):
+        if lo <= -i <= hi and S[i][0] < limit:
+            return True
+    return False
+
+
+def explained_by_first_step_gap(P, rows, reported):
+    """The recorded mechanism: the banded traceback stops at the table border and so
+    renders a path that *opened with a gap* (directly after the free terminal gaps)
+    as if its first column paired the two positions.  True if replacing the first
+    column (i0, j0) - one of i0, j0 is 0 - by the two gap columns it stands for
+    reproduces the reported score."""
+    if not rows:
+        return False
+    i0, j0 = rows[0]
+    if i0 == -1 or j0 == -1 or (i0 != 0 and j0 != 0):
+        return False
+    for first in ([(-1, j0), (i0, -1)], [(i0, -1), (-1, j0)]):
+        for t in R.complete_semiglobal(first + rows[1:], P.n, P.m):
+            if R.check_trace(t, [P.n, P.m], end_to_end=True) is None and \
+                    R.rescore(t, P.codes, P.matrix, P.gp, False) == reported:
+                return True
+    return False
+
+
+def terminal_abut_class(P, local):
+    """Trigger class `banded_affine_terminal_abut`: semi-global, affine, and allowing a
+    gap to abut a gap of the other sequence changes the optimum."""
+    if local or not isinstance(P.gp, tuple):
+        return False
+    return P.optimum("semiglobal", True) > P.optimum("semiglobal")
+
+
+def call_banded(ctx, P, band, local, max_number, probe=False):
     """One call + all oracles.  Returns the number of non-empty alignments (or None if declined)."""
     n, m, gp = P.n, P.m, P.gp
     lo, hi = min(band), max(band)
@@ -252,6 +309,9 @@ def call_banded(ctx, P, band, local, max_number):
     scores = {int(a.score) for a in res}
     ctx.check(len(scores) == 1, "score_honest", "alignments of one call report different scores %s" % sorted(scores), **info)
     reported = scores.pop()
+    # while the finding is open, a mismatch inside its trigger class is accepted only if the
+    # recorded mechanism explains it exactly (see explained_by_first_step_gap)
+    lenient = (not probe) and (not ctx.allowed("banded_first_step_gap")) and first_step_gap_class(P, lo, hi, local)
     nonempty = 0
     for idx, ali in enumerate(res):
         rows = rows_of(ali)
@@ -262,16 +322,34 @@ def call_banded(ctx, P, band, local, max_number):
         bad = [(i, j) for i, j in R.paired_positions(rows) if not (lo <= j - i <= hi)]
         ctx.check(not bad, "band_respected",
                   "alignment %d pairs positions %s outside the band %d <= j-i <= %d" % (idx, bad[:4], lo, hi), trace=rows, **info)
+        if rows:
+            nonempty += 1
         if local:
             rs = R.rescore(rows, P.codes, P.matrix, gp, True)
         else:
             rs = max(R.rescore(t, P.codes, P.matrix, gp, False) for t in R.complete_semiglobal(rows, n, m))
+        if rs != reported and lenient and explained_by_first_step_gap(P, rows, reported):
+            ctx.oracle("score_honest")
+            ctx.note("score_mismatch_explained(banded_first_step_gap quarantined)")
+            continue
         ctx.check(rs == reported, "score_honest",
                   "alignment %d: trace%s re-scores to %d, reported %d"
                   % (idx, "" if local else " completed by the unaligned ends (free terminal gaps)", rs, reported),
                   trace=rows, mode=mode, **info)
-        if rows:
-            nonempty += 1
+    # upper bound that holds under every reading of the scoring model (abutting gaps allowed, each run opening)
+    relaxed = P.optimum(mode, True)
+    ctx.check(reported <= relaxed, "not_above_optimum",
+              "reported %d exceeds even the %s optimum %d of the model that allows abutting gaps" % (reported, mode, relaxed),
+              mode=mode, **info)
+    if not (probe or ctx.allowed("banded_affine_terminal_abut")) and terminal_abut_class(P, local):
+        # quarantined class: the upper bound is the relaxed one (above); a covering band must still reach the documented optimum
+        ctx.note("restricted_upper_bound_skipped(banded_affine_terminal_abut quarantined)")
+        if lo <= -(n - 1) and hi >= m - 1:
+            opt_pair = P.optimum(mode, None, True)
+            if opt_pair is not None and opt_pair == P.optimum(mode):
+                ctx.check(reported >= opt_pair, "optimum_when_unrestricted",
+                          "band covers the whole table but reported %d < optimum %d" % (reported, opt_pair), mode=mode, **info)
+        return nonempty
     opt = P.optimum(mode)
     ctx.check(reported <= opt, "not_above_optimum",
               "reported %d exceeds the %s optimum %d of the unrestricted problem" % (reported, mode, opt), mode=mode, **info)
@@ -305,13 +383,21 @@ def gen_band(rng, n, m):
 
 def case_banded(rng, ctx, allbands):
     d = gen_pair(rng, ctx, lo_len=1 if allbands else 0, small=allbands)
+    local = bool(rng.random() < 0.5)
+    if not ctx.allowed("banded_affine_sentinel_underflow") and isinstance(d["gp"], tuple) and not local:
+        # quarantined class: keep the penalty pair, but only where the sentinel cannot underflow
+        go, ge = d["gp"]
+        h = max(0, -int(d["matrix"].min()))
+        if abs(go - ge) + ge + h < 0:
+            ctx.note("penalty_changed(banded_affine_sentinel_underflow quarantined)")
+            d["gp"] = (min(go, 2 * ge + h), ge) if go <= ge else (max(go, -h), ge)
+            assert abs(d["gp"][0] - ge) + ge + h >= 0
     log_pair(ctx, d)
     P = Pair(d)
     n, m = P.n, P.m
     ctx.op("codes_%sx%s" % (P.s1.code.dtype, P.s2.code.dtype))
     total_nonempty = 0
     if allbands:
-        local = bool(rng.random() < 0.5)
         max_number = int(rng.choice([1, 2, 1000]))
         ctx.log({"all_bands_in": [-n - 2, m + 2], "local": local, "max_number": max_number})
         for a in range(-n - 2, m + 3):
@@ -319,7 +405,6 @@ def case_banded(rng, ctx, allbands):
                 ne = call_banded(ctx, P, (a, b), local, max_number)
                 total_nonempty += ne or 0
     else:
-        local = bool(rng.random() < 0.5)
         max_number = int(rng.choice([1, 2, 5, 1000]))
         band = gen_band(rng, n, m)
         ctx.log({"band": list(band), "local": local, "max_number": max_number})
@@ -720,4 +805,54 @@ def selftest(ctx):
 
 
 # ------------------------------------------------------------------ probes
-PROBES = {}
+def _mini_pair(c1, c2, matrix, gp):
+    k1, k2 = matrix.shape
+    a1, a2 = G.alphabet(k1, "int", 0), G.alphabet(k2, "int", 1)
+    d = dict(k=(k1, k2), K=(k1, k2), akind=("int", "int"), same_alph=False, a=(a1, a2), A=(a1, a2),
+             matrix=np.asarray(matrix, dtype=np.int64), mkind="literal", mdtype="int32", c1=list(c1), c2=list(c2), gp=gp)
+    return d
+
+
+def _probe_first_step_gap(ctx):
+    """Trigger class: semi-global banded, a first-row/first-column pair scores below the gap penalty."""
+    mat = np.array([[4, -11], [-11, 4]])
+    for c1, c2, band, gp in (
+        ([0, 0], [1], (-1, 3), -9),
+        ([1], [0, 0, 0], (-3, 1), -9),
+        ([0, 1, 1, 0], [1, 1, 1, 0], (-3, 3), -2),
+        ([0, 1, 1, 0], [1, 1, 1, 0], (-3, 3), (-2, -2)),
+    ):
+        d = _mini_pair(c1, c2, mat, gp)
+        log_pair(ctx, d)
+        ctx.log({"band": list(band), "local": False, "max_number": 5})
+        call_banded(ctx, Pair(d), band, False, 5, probe=True)
+
+
+def _probe_sentinel_underflow(ctx):
+    """Trigger class: semi-global banded, affine, |open-ext| + ext - min(0, min(matrix)) < 0."""
+    mat = np.array([[5, -4], [-4, 5]])
+    for gp in ((-5, -5), (-1, -6), (-6, -12)):
+        d = _mini_pair([0, 1, 0, 0, 1, 1, 0], [0, 1, 0, 1, 1, 0], mat, gp)
+        log_pair(ctx, d)
+        ctx.log({"band": [-20, 20], "local": False, "max_number": 5})
+        call_banded(ctx, Pair(d), (-20, 20), False, 5, probe=True)
+
+
+def _probe_terminal_abut(ctx):
+    """Trigger class: semi-global banded, affine, abutting gaps change the optimum
+    (inputs outside the first-step-gap class, so the returned trace is honest)."""
+    mat = np.array([[-9, 10, -20], [-9, 0, -9], [-20, 0, -9]])
+    d = _mini_pair([0, 1], [1, 0], mat, (-5, -2))
+    log_pair(ctx, d)
+    for band in ((-2, 0), (-5, 5)):
+        ctx.log({"band": list(band), "local": False, "max_number": 5})
+        P = Pair(d)
+        assert not first_step_gap_class(P, min(band), max(band), False) and terminal_abut_class(P, False)
+        call_banded(ctx, P, band, False, 5, probe=True)
+
+
+PROBES = {
+    "banded_first_step_gap": _probe_first_step_gap,
+    "banded_affine_sentinel_underflow": _probe_sentinel_underflow,
+    "banded_affine_terminal_abut": _probe_terminal_abut,
+}
